@@ -2,15 +2,16 @@
 
    tokens : natural number = variable name | P PP Sum Q One Zero | lp rp lb rb cm pl mi ti at st sl ba am
    ast    : (n 5) | (k P) | (call f a…) | (sub f i) | (tup x…) | (un pos|neg|inv a) | (bin bor|band|add|sub|mul|div|matmul l r)
-   ops    : (print rt <ast | none> <expr>)  ->  (ok <built> <tokens> <ast> <reparsed>)
+   ops    : (print rt pinned|total <ast | none> <expr>)  ->  (ok <built> <tokens> <ast> <reparsed>)
               built    = (ok expr) | (err …) | none     model of evaluating the construction AST with the DSL operators
               tokens   = (t …)                          Print.expr of the GIVEN expr
               ast      = (ok ast) | (err …)             PyParse.parse of those tokens
               reparsed = (ok expr) | (err …)            PyEval.parseY0 of those tokens
             (print parse (t …))  ->  (ok ast) | (err syntax)
-            (print eval <ast>)   ->  (ok expr) | (err …)
+            (print eval pinned|total <ast>)   ->  (ok expr) | (err …)
 -/
 import Y0.Model.PyEval
+import Y0.Model.Dsl
 
 namespace Y0.Driver
 open Y0 Sexp
@@ -83,29 +84,38 @@ def errOrOk {α} (f : α → Sexp) : Except Err α → Sexp
   | .error (.invalidInput k) => tagged "err" [atom "invalid", atom (clean k)]
   | .error (.internal k) => tagged "err" [atom "internal", atom (clean k)]
 
+/-- which model of `Expression.__lt__` (`_get_key`) the real code under test has: the pinned one or the total
+structural key of the `expr` family's fix (the harness looks at the code and says which) -/
+def orderOf? : Sexp → Option (Expr → Expr → Bool)
+  | atom "pinned" => some PyEval.exprLt
+  | atom "total" => some Expr.ltE
+  | _ => none
+
 def handlePrint (op : String) (args : List Sexp) : Option Sexp := do
   match op, args with
-  | "rt", [build, e] =>
+  | "rt", [order, build, e] =>
+    let lt ← orderOf? order
     let e ← Codec.exprOf? e
     let built : Sexp ← (match build with
       | atom "none" => some (atom "none")
       | b => do
         let a ← astOf? b
-        pure (errOrOk Codec.exprToSexp (PyEval.evalExpr a)))
+        pure (errOrOk Codec.exprToSexp (PyEval.evalExpr lt a)))
     let toks := Print.expr e
     let ast : Sexp := match PyParse.parse toks with
       | .ok a => tagged "ok" [astToSexp a]
       | .error m => tagged "err" [atom "syntax", atom (clean m)]
-    let re := errOrOk Codec.exprToSexp (PyEval.parseY0 toks)
+    let re := errOrOk Codec.exprToSexp (PyEval.parseY0 lt toks)
     pure (tagged "ok" [built, list (atom "t" :: toks.map tokToSexp), ast, re, atom "true"])
   | "parse", [list (atom "t" :: ts)] =>
     let toks ← ts.mapM tokOf?
     pure (match PyParse.parse toks with
       | .ok a => tagged "ok" [astToSexp a]
       | .error m => tagged "err" [atom "syntax", atom (clean m)])
-  | "eval", [a] =>
+  | "eval", [order, a] =>
+    let lt ← orderOf? order
     let a ← astOf? a
-    pure (errOrOk Codec.exprToSexp (PyEval.evalExpr a))
+    pure (errOrOk Codec.exprToSexp (PyEval.evalExpr lt a))
   | "tokens", [e] =>
     let e ← Codec.exprOf? e
     pure (tagged "ok" [list (atom "t" :: (Print.expr e).map tokToSexp)])
